@@ -107,6 +107,9 @@ func newScryptWalletFileBytes(password string, privateKey []byte, n int, p int) 
 }
 
 func (w *walletFileScrypt) decrypt(password []byte) error {
+	if w.Crypto.KDFParams.DKLen != derivedKeyLen {
+		return fmt.Errorf("invalid scrypt keystore: derived key length %d != %d", w.Crypto.KDFParams.DKLen, derivedKeyLen)
+	}
 	derivedKey, err := scrypt.Key(password, w.Crypto.KDFParams.Salt, w.Crypto.KDFParams.N, w.Crypto.KDFParams.R, w.Crypto.KDFParams.P, w.Crypto.KDFParams.DKLen)
 	if err != nil {
 		return fmt.Errorf("invalid scrypt keystore: %s", err)
